@@ -1,7 +1,7 @@
 /* Assumed environment (DESIGN 3.3): allocation wrappers and logging as executable stubs.
  * Included by harnesses AFTER the source under verification.
- *   ckd_alloc: library policy is exit-on-OOM, so the wrappers never return NULL (checks run with
- *              --no-malloc-may-fail); calloc zero-fills.
+ *   ckd_alloc: library policy is exit-on-OOM, so the wrappers never return NULL: the result is ASSUMED non-NULL here
+ *              (under goto-instrument --dfcc the allocator may fail even with cbmc --no-malloc-may-fail); calloc zero-fills.
  *   err_msg:   logging has no effect on program state.                                                  */
 #ifndef SSW_STUBS_H
 #define SSW_STUBS_H
@@ -10,13 +10,13 @@
 #include <soundswallower/err.h>
 #ifndef SSW_NO_ALLOC_STUBS
 void *__ckd_calloc__(size_t n_elem, size_t elem_size, const char *file, int line)
-{ (void)file; (void)line; return calloc(n_elem, elem_size); }
+{ (void)file; (void)line; void *p = calloc(n_elem, elem_size); __CPROVER_assume(p != NULL); return p; }
 void *__ckd_malloc__(size_t size, const char *file, int line)
-{ (void)file; (void)line; return malloc(size); }
+{ (void)file; (void)line; void *p = malloc(size); __CPROVER_assume(p != NULL); return p; }
 void *__ckd_realloc__(void *ptr, size_t new_size, const char *file, int line)
-{ (void)file; (void)line; return realloc(ptr, new_size); }
+{ (void)file; (void)line; void *p = realloc(ptr, new_size); __CPROVER_assume(p != NULL); return p; }
 char *__ckd_salloc__(const char *orig, const char *file, int line)
-{ (void)file; (void)line; size_t n = strlen(orig) + 1; char *p = malloc(n); memcpy(p, orig, n); return p; }
+{ (void)file; (void)line; size_t n = strlen(orig) + 1; char *p = malloc(n); __CPROVER_assume(p != NULL); memcpy(p, orig, n); return p; }
 void ckd_free(void *ptr) { free(ptr); }
 #endif
 #if defined(SSW_ERR_CONTRACT)
